@@ -467,7 +467,7 @@ def variants(root):
     def N(name, fn, old, new, **kw):
         out.append(V('%s: neutral %s' % (fn, name), 'neutral', C, old, new, scope='def %s(' % fn, **kw))
     for fn in ('clustering_coef_bd', 'clustering_coef_wd', 'clustering_coef_wu'):
-        B('mask removed', fn, '    K[np.where(cyc3 == 0)] = np.inf\n', '', 'M.zero-triangle')
+        B('mask removed', fn, '    K[np.where(cyc3 == 0)] = np.inf', '    pass', 'M.zero-triangle')
         B('mask after division', fn, '    K[np.where(cyc3 == 0)] = np.inf\n', '', 'M.zero-triangle',
           also=[(C, '    return C\n', '    K[np.where(cyc3 == 0)] = np.inf\n    return C\n', 1)]) if False else None
         B('mask keyed on degree', fn, 'K[np.where(cyc3 == 0)] = np.inf', 'K[np.where(K == 0)] = np.inf', 'M.')
@@ -492,5 +492,5 @@ def variants(root):
     N('matmul operator', 'transitivity_bu', 'np.dot(A, np.dot(A, A))', 'A @ A @ A')
     N('denominator factored', 'clustering_coef_bd', 'CYC3 = K * (K - 1) - 2 * np.diag(np.dot(A, A))', 'CYC3 = K * K - K - 2 * np.diag(np.dot(A, A))')
     N('mask without np.where', 'clustering_coef_wd', 'K[np.where(cyc3 == 0)] = np.inf', 'K[cyc3 == 0] = np.inf')
-    N('temporaries inlined', 'transitivity_bd', '    CYC3 = K * (K - 1) - 2 * np.diag(np.dot(A, A))\n    return np.sum(cyc3) / np.sum(CYC3)', '    return np.sum(cyc3) / np.sum(K * (K - 1) - 2 * np.diag(np.dot(A, A)))')
+    N('temporaries inlined', 'transitivity_bd', '    CYC3 = K * (K - 1) - 2 * np.diag(np.dot(A, A))  # number of all possible 3-cycles\n    return np.sum(cyc3) / np.sum(CYC3)', '    return np.sum(cyc3) / np.sum(K * (K - 1) - 2 * np.diag(np.dot(A, A)))')
     return [v for v in out if v is not None]
